@@ -533,48 +533,61 @@ Inductive lstmt :=
 | LBrk (cont : bool) (args : list str)     (* break ARGS / continue ARGS *)
 | LFor (n : nat) (body : list lstmt).      (* for v in <n words>; do body; done *)
 
-(* r.stmt for the three statement kinds + loopStmtsBroken + the ForClause loop.
-   events = the argument vectors of the __obs calls *)
 (* Runner.stop: a break or continue is unwinding to its loop *)
 Definition unwinding (st : state) : bool := (0 <? brk st) || (0 <? cnt st).
 
-Fixpoint exec_stmt (s : lstmt) (st : state) : res (state * list (list str)) :=
+Section Loop.
+(* r.stmt *)
+Variable exec : lstmt -> state -> res (state * list (list str)).
+
+(* loopStmtsBroken; old_in_loop = the inLoop saved on entry *)
+Fixpoint stmts_broken (old_in_loop : bool) (l : list lstmt) (st : state)
+  : res (state * list (list str) * bool) :=
+  match l with
+  | [] => Ok (st, [], false)
+  | s :: l' =>
+      r <- exec s st ;;
+      let (st1, ev) := r in
+      if 0 <? cnt st1 then
+        let st2 := set_cnt st1 (if old_in_loop then cnt st1 - 1 else 0) in
+        Ok (st2, ev, 0 <? cnt st2)
+      else if 0 <? brk st1 then
+        Ok (set_brk st1 (if old_in_loop then brk st1 - 1 else 0), ev, true)
+      else
+        r2 <- stmts_broken old_in_loop l' st1 ;;
+        let '(st2, ev2, bk) := r2 in Ok (st2, ev ++ ev2, bk)
+  end.
+
+End Loop.
+
+Section ForLoop.
+(* one run of the loop body: loopStmtsBroken(cm.Do) with the saved inLoop *)
+Variable run_body : bool -> state -> res (state * list (list str) * bool).
+
+(* the ForClause loop over k remaining words *)
+Fixpoint for_iter (k : nat) (st : state) : res (state * list (list str)) :=
+  match k with
+  | O => Ok (st, [])
+  | S k' =>
+      if unwinding st then Ok (st, []) else       (* the loop head calls stop() *)
+      let old := in_loop st in
+      r <- run_body old (set_in_loop st true) ;;
+      let '(st1, ev, bk) := r in
+      let st1 := set_in_loop st1 old in
+      if bk then Ok (st1, ev)
+      else r2 <- for_iter k' st1 ;; let (st2, ev2) := r2 in Ok (st2, ev ++ ev2)
+  end.
+End ForLoop.
+
+(* r.stmt for the three statement kinds; events = the argument vectors of the __obs calls *)
+Fixpoint exec_stmt (s : lstmt) (st : state) {struct s} : res (state * list (list str)) :=
   if unwinding st then Ok (st, []) else
   match s with
   | LObs tag => Ok (set_last st 0, [[[]; tag; itoa (last_exit st)]])
   | LBrk cont args =>
       r <- bi_break cont args st ;;
       Ok (set_last (r_st r) (r_code r), [])
-  | LFor n body =>
-      (* loopStmtsBroken *)
-      let fix stmts_broken (old_in_loop : bool) (l : list lstmt) (st : state) : res (state * list (list str) * bool) :=
-        match l with
-        | [] => Ok (st, [], false)
-        | s :: l' =>
-            r <- exec_stmt s st ;;
-            let (st1, ev) := r in
-            if 0 <? cnt st1 then
-              let st2 := set_cnt st1 (if old_in_loop then cnt st1 - 1 else 0) in
-              Ok (st2, ev, 0 <? cnt st2)
-            else if 0 <? brk st1 then
-              Ok (set_brk st1 (if old_in_loop then brk st1 - 1 else 0), ev, true)
-            else
-              r2 <- stmts_broken old_in_loop l' st1 ;;
-              let '(st2, ev2, bk) := r2 in Ok (st2, ev ++ ev2, bk)
-        end in
-      let fix iter (k : nat) (st : state) : res (state * list (list str)) :=
-        match k with
-        | O => Ok (st, [])
-        | S k' =>
-            if unwinding st then Ok (st, []) else       (* the loop head calls stop() *)
-            let old := in_loop st in
-            r <- stmts_broken old body (set_in_loop st true) ;;
-            let '(st1, ev, bk) := r in
-            let st1 := set_in_loop st1 old in
-            if bk then Ok (st1, ev)
-            else r2 <- iter k' st1 ;; let (st2, ev2) := r2 in Ok (st2, ev ++ ev2)
-        end in
-      iter n st
+  | LFor n body => for_iter (fun old st' => stmts_broken exec_stmt old body st') n st
   end.
 
 Inductive call :=
